@@ -666,6 +666,9 @@ pub struct Interp<'p> {
     lazy: bool,
     /// lazy mode: number of arithmetic operations that would have aborted in the eager semantics
     pub poisoned_ops: u64,
+    /// evaluate the program as `emit_program` prints it with `EmitOpts::no_trap` (operands of + - * / % masked so that the
+    /// operation cannot abort)
+    no_trap: bool,
 }
 type Env = Vec<(String, Val)>;
 const STEP_LIMIT: u64 = 2_000_000;
@@ -679,7 +682,11 @@ fn lookup_mut<'e>(env: &'e mut Env, n: &str) -> &'e mut Val {
 
 impl<'p> Interp<'p> {
     pub fn run(p: &'p Program, args: &[Val]) -> RefOutcome {
-        Self::run_mode(p, args, false)
+        Self::run_mode(p, args, false, false)
+    }
+    /// reference outcome of the operand-masked emission of the program (`EmitOpts { no_trap: true, .. }`)
+    pub fn run_masked(p: &'p Program, args: &[Val]) -> RefOutcome {
+        Self::run_mode(p, args, false, true)
     }
     /// The same semantics, except that arithmetic which must abort (overflow, underflow, division by zero) produces a
     /// poison value instead, poison propagates through every operation and aggregate, and the abort (class Arith) happens
@@ -687,10 +694,10 @@ impl<'p> Interp<'p> {
     /// If the eager run aborts in arithmetic and the lazy run gets further, every aborting operation passed on the way was
     /// dead (its result never reached anything observable).
     pub fn run_lazy(p: &'p Program, args: &[Val]) -> RefOutcome {
-        Self::run_mode(p, args, true)
+        Self::run_mode(p, args, true, false)
     }
-    fn run_mode(p: &'p Program, args: &[Val], lazy: bool) -> RefOutcome {
-        let mut it = Interp { p, logs: vec![], kinds: Default::default(), steps: 0, lazy, poisoned_ops: 0 };
+    fn run_mode(p: &'p Program, args: &[Val], lazy: bool, no_trap: bool) -> RefOutcome {
+        let mut it = Interp { p, logs: vec![], kinds: Default::default(), steps: 0, lazy, poisoned_ops: 0, no_trap };
         let main = p.fns.len() - 1;
         let r = it.call(main, args.to_vec());
         let r = match r {
@@ -823,6 +830,10 @@ impl<'p> Interp<'p> {
             Stmt::If { cond, then, els } => {
                 self.kinds.insert("if-stmt");
                 let c = self.expr(cond, env)?;
+                if c.has_poison() && self.pure_stmts(then) && self.pure_stmts(els) {
+                    // nothing either arm does can be observed: the condition is not observed either
+                    return Ok(());
+                }
                 if self.observe(c)? == Val::Bool(true) {
                     self.stmts(then, env)?;
                 } else {
@@ -888,8 +899,26 @@ impl<'p> Interp<'p> {
                     }
                     return self.expr(b, env);
                 }
-                let l = self.expr(a, env)?;
-                let r = self.expr(b, env)?;
+                let mut l = self.expr(a, env)?;
+                let mut r = self.expr(b, env)?;
+                if self.no_trap && matches!(op, BinOp::Add | BinOp::Sub | BinOp::Mul | BinOp::Div | BinOp::Rem) {
+                    // the masks emit_expr writes for EmitOpts::no_trap
+                    if let (Val::Int(w, x), Val::Int(_, y)) = (&l, &r) {
+                        let w = *w;
+                        let one = BigUint::one();
+                        let half = (&one << (w as usize - 1)) - &one;
+                        let high = &one << (w as usize - 1);
+                        let sqrt = (&one << (w as usize / 2)) - &one;
+                        let (x, y) = match op {
+                            BinOp::Add => (x & &half, y & &half),
+                            BinOp::Sub => (x | &high, y & &half),
+                            BinOp::Mul => (x & &sqrt, y & &sqrt),
+                            _ => (x.clone(), y | &one),
+                        };
+                        l = Val::Int(w, x);
+                        r = Val::Int(w, y);
+                    }
+                }
                 self.binop(*op, l, r)?
             }
             Expr::Cast(_, dst, x) => {
@@ -955,6 +984,9 @@ impl<'p> Interp<'p> {
             Expr::If(c, t, f) => {
                 self.kinds.insert("if-expr");
                 let c = self.expr(c, env)?;
+                if c.has_poison() && self.pure_block(t) && self.pure_block(f) {
+                    return Ok(Val::Poison);
+                }
                 if self.observe(c)? == Val::Bool(true) {
                     self.block(t, env)?
                 } else {
@@ -984,6 +1016,9 @@ impl<'p> Interp<'p> {
             Expr::MatchInt(x, _, arms, def) => {
                 self.kinds.insert("match-int");
                 let v = self.expr(x, env)?;
+                if v.has_poison() && arms.iter().all(|(_, b)| self.pure_block(b)) && self.pure_block(def) {
+                    return Ok(Val::Poison);
+                }
                 let v = self.observe(v)?;
                 let k = match &v {
                     Val::Int(_, b) => b.clone(),
@@ -1003,6 +1038,33 @@ impl<'p> Interp<'p> {
             }
             Expr::Block(b) => self.block(b, env)?,
         })
+    }
+    /// Syntactic effect-freeness (lazy semantics): evaluating the statements can do nothing observable except abort in
+    /// arithmetic. Conservative: loops, assignments, early exits, assert/require/log and calls of functions that are not
+    /// themselves effect-free make code impure.
+    fn pure_stmts(&self, v: &[Stmt]) -> bool {
+        v.iter().all(|s| match s {
+            Stmt::Let { init, .. } => self.pure_expr(init),
+            Stmt::If { cond, then, els } => self.pure_expr(cond) && self.pure_stmts(then) && self.pure_stmts(els),
+            _ => false,
+        })
+    }
+    fn pure_block(&self, b: &Block) -> bool {
+        self.pure_stmts(&b.stmts) && self.pure_expr(&b.result)
+    }
+    fn pure_expr(&self, e: &Expr) -> bool {
+        match e {
+            Expr::Lit(_) | Expr::Var(_) => true,
+            Expr::Not(x) | Expr::Cast(_, _, x) | Expr::TupleGet(x, _) | Expr::Field(x, _) | Expr::EnumLit(_, _, x) => self.pure_expr(x),
+            Expr::Bin(_, _, a, b) => self.pure_expr(a) && self.pure_expr(b),
+            Expr::Tuple(xs) | Expr::StructLit(_, xs) | Expr::ArrayLit(xs) => xs.iter().all(|x| self.pure_expr(x)),
+            Expr::Index(a, i, _) => self.pure_expr(a) && self.pure_expr(i),
+            Expr::If(c, t, f) => self.pure_expr(c) && self.pure_block(t) && self.pure_block(f),
+            Expr::MatchEnum(x, _, arms) => self.pure_expr(x) && arms.iter().all(|(_, b)| self.pure_block(b)),
+            Expr::MatchInt(x, _, arms, def) => self.pure_expr(x) && arms.iter().all(|(_, b)| self.pure_block(b)) && self.pure_block(def),
+            Expr::Call(f, args) => args.iter().all(|a| self.pure_expr(a)) && self.pure_block(&self.p.fns[*f].body),
+            Expr::Block(b) => self.pure_block(b),
+        }
     }
     fn arith_abort(&mut self) -> Result<Val, Flow> {
         if self.lazy {
